@@ -353,6 +353,7 @@ func judge(c *core.Case, mc *muCase, d *driver, log []event) {
 	}
 	known := map[string]bool{}
 	nBare := 0
+	c.Count("membership_questions_asked_from_inside_the_invitation_callback", int(d.w.asked.Load()))
 	if d.w.noInviteCB {
 		// nobody to deliver to: the invitations are dropped, and the session goes
 		// on (the barriers and the calls after them show that)
